@@ -259,7 +259,46 @@ def c18_jobs(tier):
     return jobs
 
 
+def c05_jobs(tier):
+    q = tier == 'quick'
+    jobs = [J('root', 'H_C05_ceilpow2', [])]
+    for n in range(2, (32 if q else 64) + 1):
+        jobs.append(J('root', 'H_C05_dft', [n], stubs=['fft_summary']))
+    return jobs
+
+
+def c19_jobs(tier):
+    q = tier == 'quick'
+    jobs = [J('fft', 'H_C19_lastpow2', []), J('fft', 'PY:fft_roots', [])]
+    for p in range(1, (8 if q else 10) + 1):
+        jobs.append(J('fft', 'H_C19_perm', [p]))
+    for N in (2, 3, 5, 8, 12, 100, 1000, 1 << 12):
+        jobs.append(J('fft', 'H_C19_new', [N]))
+    for N in ((2, 4, 8, 16, 32, 64) if q else (2, 4, 8, 16, 32, 64, 128, 256)):
+        jobs.append(J('fft', 'H_C19_transform', [N], linear_normalize=True, timeout_ms=300000))
+        jobs.append(J('fft', 'H_C19_inverse', [N], linear_normalize=True, timeout_ms=300000))
+    for (N, L) in ((8, 4), (8, 16), (8, 7), (4, 0), (16, 17)):
+        for inv in (0, 1):
+            jobs.append(J('fft', 'H_C19_wronglen', [N, L, inv], allow_panics=['dimension mismatches', 'Input dimension'], no_reach=True))
+    return jobs
+
+
 PROPS = {
+    'C05': {
+        'jobs': c05_jobs,
+        'bounds': {'quick': 'every n in 2..32 (powers of two, non powers, 2^k+1): padded +-1 input vector, count range i < n/2-1, threshold sqrt(2.995732274 n), N0, variance constant 3.8, P/Q tail; ceilPow2 for ALL 1 <= n <= 2^62 (63 unwindings, feasibility-pruned)',
+                   'thorough': 'n in 2..64'},
+        'outside': 'the transform itself (C19): fft.Transform is summarised as an uninterpreted function of its input vector, so "same padded input => same spectrum" is what is compared; n > 64; binary64 rounding; erfc accuracy; magnitudes within rounding of the threshold (both sides see the same uninterpreted magnitude)',
+        'assumptions': ['fft.FFT.Transform summarised (C19)', 'cmplx.Abs uninterpreted', 'float tails as exact reals'],
+    },
+    'C19': {
+        'jobs': c19_jobs,
+        'technique': 'solver-based bounded checking of the real code: the butterfly network is executed symbolically over 2N free real inputs; each output is normalised by z3 to an exact rational linear form and compared with the direct DFT sum over the same twiddle table (difference bounded by exact interval arithmetic, SMT (LRA) query when the bound fails); lastPow2 over the whole int range as one bit-vector query family',
+        'bounds': {'quick': 'Transform and Inverse(Transform) for N = 2..64, every complex input of the unit box (linear => every input up to scale), tolerance 1e-10; lastPow2 for all |N| <= 2^40 (27 unwindings); bit-reversal permutation p <= 8; New for non powers of two; wrong-length refusals; twiddle table vs 50-digit exp for N <= 1024 (concrete)',
+                   'thorough': 'N up to 256; permutation p <= 10'},
+        'outside': 'N > 256 (a fault that appears only at N = 2^20 would be missed); binary64 rounding inside the butterflies (exact real arithmetic over the binary64 twiddle values); sincos accuracy beyond the concrete table check',
+        'assumptions': ['complex arithmetic as exact real arithmetic on the binary64 twiddle constants', 'twiddle table entries: libm sin/cos on concrete arguments (Go uses its own implementation; both within 1 ulp)'],
+    },
     'C18': {
         'jobs': c18_jobs,
         'technique': 'solver-based bounded checking of the real code with effect tracking: during symbolic execution every store whose target object existed before the call (caller slices, package-level variables) becomes an obligation; input-unchanged and same-result-on-second-call are asserted over symbolic inputs; models are replayed natively with a concurrent second call under the Go race detector',
